@@ -1,1 +1,3 @@
 //! shared helpers for the relay monitors
+
+pub mod rig;
